@@ -564,7 +564,13 @@ impl<'a> SchemaGen<'a> {
                 }
                 3..=5 => {
                     let pre = self.prelude(true);
-                    ADef::Enum(AEnum { pre, name: n, variants: self.variants(5), fallback: self.fallback(false) })
+                    let mut variants = self.variants(5);
+                    let fallback = self.fallback(false);
+                    // an enum made of nothing but its fallback variant is valid
+                    if fallback.is_some() && self.r.chance(1, 5) {
+                        variants.clear();
+                    }
+                    ADef::Enum(AEnum { pre, name: n, variants, fallback })
                 }
                 6 | 7 => {
                     let mut sv = self.service();
